@@ -220,6 +220,7 @@ type env struct {
 	cfg     hx.Config
 	pending []pendingOp // calls predicted not to return: run in a subprocess at the end
 	skipped int
+	d0, d1  []driver.Matcher // the registered default matchers: default configuration / rhel with ignore_unpatched
 }
 
 func matcherByName(name string) driver.Matcher {
@@ -687,6 +688,8 @@ func Run(cfg hx.Config) error {
 	phase("multiRecordOps", func() { e.multiRecordOps(cfg.N(40, 1400)) })
 	phase("cpeSubOps", func() { e.cpeSubOps(cfg.N(300, 5000)) })
 	phase("scanOps", func() { e.scanOps(cfg.N(60, 2000)) })
+	phase("concurrentOps", func() { e.concurrentOps() })
+	phase("rhelStickyWitness", func() { e.rhelStickyWitness() })
 	phase("urlQueryOps", func() { e.urlQueryOps(cfg.N(600, 20000)) })
 	phase("osvMatcherOps", func() { e.osvMatcherOps(cfg.N(30, 1200)) })
 	phase("osvFreeOps", func() { e.osvFreeOps(cfg.N(1500, 80000)) })
